@@ -96,7 +96,7 @@ def shrink(lines, work, still_fails, budget=250):
     return setup + ops
 
 
-def correspondence(res, st, tier, work):
+def correspondence(res, st, tier, work, extra_gen=()):
     """corpus first, then generated histories; returns dict(stats=..., trace=impl trace path,
     mismatch=None|dict).  A mismatch is recorded in st['broken'] by the caller."""
     info = {"stats": {}, "trace": None, "mismatch": None, "cases": 0, "lines": 0}
@@ -119,6 +119,36 @@ def correspondence(res, st, tier, work):
                     info["mismatch"] = {"where": "corpus/" + name, "line": k, "impl": fi[k] if k < len(fi) else "<eof>",
                                         "model": fm[k] if k < len(fm) else "<eof>", "case_lines": lines}
                     return info
+    # property-specific exhaustive sweeps (same trace format, same model replay)
+    for k, args in enumerate(extra_gen):
+        xi = os.path.join(work, "extra%d.impl" % k)
+        xm = os.path.join(work, "extra%d.model" % k)
+        rc, out, dt = sh([HARNESS] + list(args) + [xi], timeout=3000)
+        if rc != 0:
+            info["mismatch"] = {"where": "harness " + " ".join(args), "detail": out[-2000:]}
+            return info
+        try:
+            info.setdefault("extra_stats", []).append(json.loads(out.strip().splitlines()[-1]))
+        except (ValueError, IndexError):
+            pass
+        rc, out, dt = sh([DRIVER, xi, xm], timeout=3000)
+        if rc != 0:
+            info["mismatch"] = {"where": "model driver on " + " ".join(args), "detail": out[-2000:]}
+            return info
+        traces.append(xi)
+        fi, fm = filtered(xi), filtered(xm)
+        k2 = first_mismatch(fi, fm)
+        if k2 is not None:
+            caseno = None
+            for j in range(min(k2, len(fi) - 1), -1, -1):
+                if fi[j].startswith("CASE "):
+                    caseno = int(fi[j].split()[1])
+                    break
+            cases = dict(split_cases(xi))
+            info["mismatch"] = {"where": "sweep %s case %s" % (" ".join(args), caseno), "line": k2,
+                                "impl": fi[k2][:1500] if k2 < len(fi) else "<eof>", "model": fm[k2][:1500] if k2 < len(fm) else "<eof>",
+                                "case_lines": case_input_lines(cases.get(caseno, []))}
+            return info
     ti = os.path.join(work, "trace.impl")
     tm = os.path.join(work, "trace.model")
     env_cases = os.environ.get("VERIF_ED_CASES")
@@ -252,7 +282,7 @@ def case_lines_upto(case, idx):
 
 # ------------------------------------------------------------------ generic check skeleton
 
-def run_check(prop, tier, oracle, rule, assumptions, extra=None):
+def run_check(prop, tier, oracle, rule, assumptions, extra=None, extra_gen=()):
     """oracle(cases, res) -> list of dict(signature, case_lines, detail)"""
     res = Result(prop, tier, "proof")
     st = standard_build(res, prop, group="ed", harness_bin="ed", model_deps=MODEL_DEPS, tablegen_groups=("bopomofo", "editor"))
@@ -260,7 +290,7 @@ def run_check(prop, tier, oracle, rule, assumptions, extra=None):
     if os.path.isdir(work):
         shutil.rmtree(work, ignore_errors=True)
     os.makedirs(work, exist_ok=True)
-    info = correspondence(res, st, tier, work)
+    info = correspondence(res, st, tier, work, extra_gen)
     failures = []
     ncases = 0
     if info.get("traces"):
@@ -271,9 +301,15 @@ def run_check(prop, tier, oracle, rule, assumptions, extra=None):
     if extra:
         failures += extra(res, st, tier, work)
     stats = info.get("stats", {})
+    for xs in info.get("extra_stats", []):
+        res.coverage["evaluations"] += xs.get("ops", 0)
+        res.coverage["distinct_nontrivial"] += xs.get("nontrivial_cases", 0)
+        res.coverage["traces_validated_against_impl"] += xs.get("cases", 0)
+        if xs.get("exhaustive"):
+            res.coverage["exhaustive_sweeps"] = res.coverage.get("exhaustive_sweeps", 0) + 1
     res.coverage["evaluations"] += stats.get("ops", 0)
     res.coverage["distinct_nontrivial"] += stats.get("nontrivial_cases", 0)
-    res.coverage["traces_validated_against_impl"] = stats.get("cases", 0)
+    res.coverage["traces_validated_against_impl"] += stats.get("cases", 0)
     res.coverage["input_distribution"] = {k: stats.get(k) for k in ("op_kinds", "cases_visiting_state", "max_buffer_len", "impl_panics")}
     res.coverage["rule"] = rule
     if info.get("trace"):
